@@ -187,6 +187,23 @@ def parse_wrapper(outcome: int, advance: int, st: int) -> bool:
 PARSER_FOR_WRAPPER = [None]
 
 
+def huge_number(ndigits: int, neg: bool, dialect: int) -> bool:
+    """
+    requires: 1 <= ndigits <= 6000 and 0 <= dialect <= 2
+    """
+    # regression witness (concrete): the interpreter's own limit on decimal conversions must not leak out of the lexer
+    text = 'M DEFINITIONS ::= BEGIN\nx OBJECT IDENTIFIER ::= { iso 3 }\ny OBJECT-TYPE SYNTAX Integer32 (%s%s)\n' % ('-' if neg else '', '9' * ndigits)
+    try:
+        tok.parse_text(text, ['smiV2', 'smiV1', 'smiV1Relaxed'][dialect])
+    except error.PySmiParserError:      # (a subclass of the lexer error: test it first)
+        return ndigits <= 20            # the number was tokenised; the sentence is incomplete on purpose
+    except error.PySmiLexerError as e:
+        return ndigits > 19 and e.lineno == 3
+    except Exception:
+        return False
+    return False
+
+
 def conditions(prop, tier):
     q = tier == 'quick'
     t = 280 if q else 1700
@@ -231,4 +248,5 @@ def selftests(prop):
         return [('parse_wrapper', dict(outcome=2, advance=0, st=0))]
     return [('p_error_cond', dict(has_tok=True, ti=5, lineno=7, v='x')),
             ('truncate', dict(fam=5, k=200)), ('mutate', dict(fam=0, op=0, k=200, ti=0)),
-            ('mutate', dict(fam=0, op=2, k=3, ti=4)), ('parse_wrapper', dict(outcome=2, advance=0, st=0))]
+            ('mutate', dict(fam=0, op=2, k=3, ti=4)), ('parse_wrapper', dict(outcome=2, advance=0, st=0)),
+            ('huge_number', dict(ndigits=4301, neg=False, dialect=0)), ('huge_number', dict(ndigits=5, neg=True, dialect=1))]
